@@ -64,7 +64,7 @@ def main(argv):
         except slicer.SliceError as e:
             print('INCONCLUSIVE: slicer: %s' % e); inconclusive.append('slicer[%s]: %s' % (name, e)); continue
         units[name] = (mod, jobs); slice_recs[name] = recs
-    if not units and not inconclusive:
+    if not units and not inconclusive and not ONLY_UNITS:
         print('no jobs registered for', prop); return 2
     # 2. jobs + vacuity probes
     tasks = []
